@@ -1,0 +1,31 @@
+//go:build verif
+
+package tokens
+
+import (
+	. "github.com/cloudflare/pat-go/internal/vspec"
+)
+
+// SpecTokenInput is the authenticator input of a token:
+// token_type || nonce || context || key_id (RFC 9577 section 2.2).
+//
+//@ spec
+func SpecTokenInput(tokenType uint16, nonce, context, keyID string) string {
+	return U16(tokenType) + nonce + context + keyID
+}
+
+//@ func (t Token) AuthenticatorInput() (res []byte)
+//@ props C01 C02 C04 C10 C16
+//@ safety C03 C04
+//@ ensures string(res) == SpecTokenInput(t.TokenType, string(t.Nonce), string(t.Context), string(t.KeyID))
+//@ ensures fresh(res)
+//@ assigns none
+//@ end
+
+//@ func (t Token) Marshal() (res []byte)
+//@ props C01 C04 C16
+//@ safety C03 C04
+//@ ensures string(res) == SpecTokenInput(t.TokenType, string(t.Nonce), string(t.Context), string(t.KeyID)) + string(t.Authenticator)
+//@ ensures fresh(res)
+//@ assigns none
+//@ end
